@@ -129,6 +129,8 @@ struct Tr<'a> {
     has_data: bool,
     // constructors (construct.rs): no receiver; the result is a model matrix built from an element list
     ctor_mode: bool,
+    // the drivers of arithmetic.rs: several element types; the element size that matters is the output's (esU)
+    arith: bool,
     // `-> &mut Self` in data mode: the function's value is the new matrix
     ret_self: bool,
     // `let mut` locals in scope (data mode): they are threaded through `for` and `loop` bodies together with the element list
@@ -173,6 +175,23 @@ fn data_fn(owner: &str, name: &str) -> bool {
 // construct.rs: the constructors (no receiver; element lists are built with the Vec primitives of Gen/Prelude.v)
 fn ctor_fn(owner: &str, name: &str) -> bool {
     owner == "Matrix" && matches!(name, "new" | "with_capacity" | "with_default" | "with_value" | "with_initializer")
+}
+
+// arithmetic.rs: the elementwise and scalar drivers.  (implicit element types, parameters, result type); the parameter names
+// are the source's, the element types are named by role: L = self's, R = rhs's, S = the scalar's, U = the output's
+fn arith_sig(name: &str) -> Option<(&'static str, &'static str, &'static str)> {
+    Some(match name {
+        "elementwise_operation" | "elementwise_operation_consume_self" => {
+            ("{L R U : Type}", "(esU : Z) (self : matrix L) (rhs : matrix R) (op : L -> R -> U)", "(result (matrix U))")
+        }
+        "elementwise_operation_assign" => ("{L R : Type}", "(self : matrix L) (rhs : matrix R) (op : L -> R -> L)", "(matrix L * result unit)"),
+        "scalar_operation" | "scalar_operation_consume_self" => ("{L S U : Type}", "(esU : Z) (self : matrix L) (scalar : S) (op : L -> S -> U)", "(result (matrix U))"),
+        "scalar_operation_assign" => ("{L S : Type}", "(self : matrix L) (scalar : S) (op : L -> S -> L)", "(matrix L)"),
+        _ => return None,
+    })
+}
+fn arith_fn(owner: &str, name: &str) -> bool {
+    owner == "Matrix" && arith_sig(name).is_some()
 }
 
 fn fuel_fn(name: &str) -> bool {
@@ -302,7 +321,7 @@ impl<'a> Tr<'a> {
                         return Ty::Named(t.to_string());
                     }
                 }
-                if env.get(&p) == Some(&Ty::Named("Init".into())) {
+                if env.get(&p) == Some(&Ty::Named("Init".into())) || env.get(&p) == Some(&Ty::Named("OpFn".into())) {
                     return Ty::Named("Elem".into());
                 }
                 if p == "Some" {
@@ -762,7 +781,11 @@ impl<'a> Tr<'a> {
             " es al base bytes"
         } else if self.callee_uses_es(owner, name) {
             self.uses_es = true;
-            " es"
+            if self.arith {
+                " esU"
+            } else {
+                " es"
+            }
         } else {
             ""
         };
@@ -984,6 +1007,11 @@ impl<'a> Tr<'a> {
                         }
                     }
                 }
+                if env.get(&p) == Some(&Ty::Named("OpFn".into())) {
+                    // the operation closure: caller code; for the assigning forms its value is the new left element
+                    let args: Vec<&Expr> = c.args.iter().collect();
+                    return self.exprs(&args, env, &mut |me, vs, env| k(me, format!("({} {})", p, vs.join(" ")), env));
+                }
                 if env.get(&p) == Some(&Ty::Named("Init".into())) {
                     // the initializer closure: caller code, a function of the index it is given
                     let args: Vec<&Expr> = c.args.iter().collect();
@@ -1051,6 +1079,68 @@ impl<'a> Tr<'a> {
                     k(self, t.clone(), env)
                 )
             }
+            Expr::MethodCall(m) if self.arith && (m.method == "collect" || m.method == "for_each") => {
+                // X.data.{iter|into_iter|iter_mut}() [.zip(&Y.data) | .enumerate()] {.map(cl).collect() | .for_each(cl)}
+                let mut chain: Vec<&ExprMethodCall> = vec![m];
+                let mut cur: &Expr = &m.receiver;
+                while let Expr::MethodCall(mc) = cur {
+                    chain.push(mc);
+                    cur = &mc.receiver;
+                }
+                chain.reverse(); // innermost first
+                let src = tstr(cur);
+                let Some(who) = src.strip_suffix(".data") else { return format!("(*UNSUPPORTED iterator source {}*)", src) };
+                let names: Vec<String> = chain.iter().map(|c| c.method.to_string()).collect();
+                let is_assign = m.method == "for_each";
+                let (pairs, nparams, tail): (String, usize, Option<String>) = match names.iter().map(|s| s.as_str()).collect::<Vec<_>>().as_slice() {
+                    ["iter" | "into_iter", "zip", "map", "collect"] | ["iter_mut", "zip", "for_each"] => {
+                        let other = tstr(&chain[1].args[0]);
+                        let Some(o) = other.strip_prefix('&').and_then(|x| x.strip_suffix(".data")) else { return format!("(*UNSUPPORTED zip argument {}*)", other) };
+                        (format!("(combine (m_data {}) (m_data {}))", who, o), 2, Some(format!("(m_data {})", who)))
+                    }
+                    ["iter" | "into_iter", "enumerate", "map", "collect"] | ["iter_mut", "enumerate", "for_each"] => (format!("(zenumerate (m_data {}))", who), 2, None),
+                    ["iter" | "into_iter", "map", "collect"] | ["iter_mut", "for_each"] => (format!("(m_data {})", who), 1, None),
+                    other => return format!("(*UNSUPPORTED iterator chain {}*)", other.join(".")),
+                };
+                let clos = if is_assign { &m.args[0] } else { &chain[chain.len() - 2].args[0] };
+                let Expr::Closure(cl) = clos else { return "(*UNSUPPORTED closure argument*)".into() };
+                let pnames: Vec<String> = match cl.inputs.first() {
+                    Some(Pat::Tuple(t)) if nparams == 2 && cl.inputs.len() == 1 && t.elems.len() == 2 => t.elems.iter().map(tstr).collect(),
+                    Some(Pat::Ident(i)) if nparams == 1 && cl.inputs.len() == 1 => vec![i.ident.to_string()],
+                    _ => return "(*UNSUPPORTED closure parameters*)".into(),
+                };
+                let mut e2 = env.clone();
+                let enumerated = pairs.starts_with("(zenumerate");
+                for (i, pn) in pnames.iter().enumerate() {
+                    e2.insert(pn.clone(), if enumerated && i == 0 { Ty::Usize } else { Ty::Named("Elem".into()) });
+                }
+                let body = self.expr(&cl.body, &mut e2, &mut |_, v, _| format!("Val {}", v));
+                let binder = if nparams == 2 {
+                    format!("fun it => let '({}, {}) := it in", cq(&pnames[0]), cq(&pnames[1]))
+                } else {
+                    format!("fun {} =>", cq(&pnames[0]))
+                };
+                let t = self.fresh("d");
+                if is_assign {
+                    // the elements the iterator reaches are replaced; a zip that ends early leaves the rest of the vector as it is
+                    let rest = match tail {
+                        Some(src) => format!(" ++ zskipn (zlen {}) {}", t, src),
+                        None => String::new(),
+                    };
+                    format!(
+                        "let* {} := map_res ({}\n    {}) {} in\n  let self := set_data self ({}{}) in\n  {}",
+                        t,
+                        binder,
+                        body,
+                        pairs,
+                        t,
+                        rest,
+                        k(self, "tt".to_string(), env)
+                    )
+                } else {
+                    format!("let* {} := map_res ({}\n    {}) {} in\n  {}", t, binder, body, pairs, k(self, t.clone(), env))
+                }
+            }
             Expr::MethodCall(m) => {
                 let rt = self.ty_of(&m.receiver, env);
                 let name = m.method.to_string();
@@ -1113,6 +1203,12 @@ impl<'a> Tr<'a> {
                         let s = s.clone();
                         let mut a = vs.clone();
                         a[0] = "(mview self)".to_string();
+                        // another matrix handed to a size / shape function: what such a function sees of it
+                        for (i, arg) in m.args.iter().enumerate() {
+                            if matches!(arg, Expr::Path(_)) && env.get(&tstr(arg)) == Some(&Ty::Named("Matrix".into())) {
+                                a[i + 1] = format!("(mview {})", vs[i + 1]);
+                            }
+                        }
                         me.call(&s, &name, a, env, k)
                     }
                     (Ty::Named(s), _)
@@ -1246,6 +1342,13 @@ const TARGETS: &[(&str, &str)] = &[
     ("Matrix", "set_order_without_rearrangement"),
     // eq.rs: PartialEq
     ("Matrix", "eq"),
+    // arithmetic.rs: the elementwise and scalar drivers
+    ("Matrix", "elementwise_operation"),
+    ("Matrix", "elementwise_operation_consume_self"),
+    ("Matrix", "elementwise_operation_assign"),
+    ("Matrix", "scalar_operation"),
+    ("Matrix", "scalar_operation_consume_self"),
+    ("Matrix", "scalar_operation_assign"),
     // construct.rs: the constructors
     ("Matrix", "new"),
     ("Matrix", "with_capacity"),
@@ -1332,6 +1435,7 @@ fn main() {
     println!("(* GENERATED by rs2v from the Rust source - do not edit.  One definition per source function. *)");
     println!("From Matreex Require Import Gen.Prelude.\n");
     for (o, n) in TARGETS {
+        let n_fn: &str = n;
         let Some(f) = cx.fns.get(&(o.to_string(), n.to_string())) else {
             println!("(*UNSUPPORTED missing function {}::{} *)\nDefinition G_{}_{} := missing_source_function.\n", o, n, o, n);
             continue;
@@ -1349,8 +1453,15 @@ fn main() {
                     params.push(format!("(self : G{})", o));
                 }
                 FnArg::Typed(t) => {
-                    let ty = conv_ty(&t.ty, o);
+                    let mut ty = conv_ty(&t.ty, o);
                     let n = tstr(&t.pat).replace("mut", "");
+                    if arith_fn(o, n_fn) {
+                        if n == "op" {
+                            ty = Ty::Named("OpFn".into());
+                        } else if n == "scalar" {
+                            ty = Ty::Named("Elem".into());
+                        }
+                    }
                     env.insert(n.clone(), ty.clone());
                     params.push(format!("({} : {})", n, coq_ty(&ty)));
                 }
@@ -1362,8 +1473,9 @@ fn main() {
             ReturnType::Type(_, _) if *o == "Matrix" && ptr_fn(o, n) => Ty::Named("IterVectorsMut".into()),
             ReturnType::Type(_, t) => conv_ty(t, o),
         };
-        let cm = ctor_fn(o, n);
-        let dm = data_fn(o, n) || cm;
+        let am = arith_fn(o, n);
+        let cm = ctor_fn(o, n) || (am && !self_mut);
+        let dm = data_fn(o, n) || cm || am;
         let ret_self = dm && tstr(&sig.output) == "->&mutSelf";
         let mut tr = Tr {
             cx: &mut cx,
@@ -1373,6 +1485,7 @@ fn main() {
             data_mode: dm,
             has_data: false,
             ctor_mode: cm,
+            arith: am,
             ret_self,
             mut_locals: vec![],
             aliases: HashMap::new(),
@@ -1388,6 +1501,11 @@ fn main() {
             ""
         };
         let rty = if self_mut && tstr(&sig.output) != "->&mutSelf" { format!("(G{} * {})", o, coq_ty(&ret)) } else { coq_ty(&ret) };
+        if am {
+            let (tys, ps, rty) = arith_sig(n).unwrap();
+            println!("Definition G_{}_{} {} (md : cfg) {} : res {} :=\n  {}.\n", o, n, tys, ps, rty, body);
+            continue;
+        }
         if cm {
             let uses_dflt = tstr(&block).contains("T::default");
             let rty = match &ret {
